@@ -92,7 +92,7 @@ def run(ctx):
     else:
         recs = records(ctx)
     return common.pipeline(
-        ctx, [('SpectrumOpsMC', 'SpectrumOpsMC_C08_%s.cfg' % ctx.tier)], 'Trace_SpectrumOps', recs,
+        ctx, ([('SpectrumOpsMC', 'SpectrumOpsMC_C08_quick.cfg')] if ctx.quick else [('SpectrumOpsMC', 'SpectrumOpsMC_C08_thoroughA.cfg'), ('SpectrumOpsMC', 'SpectrumOpsMC_C08_thoroughB.cfg')]), 'Trace_SpectrumOps', recs,
         nontrivial_of=nontrivial, mutator=mutate,
         rule='weights: every (m,n,h) with 1<=m<=n<=N0 (N0=20 quick, 40 thorough) plus sampled n<=200, non-trivial if 0<h<n; '
              'project: random 1-4-D spectra (random masks, folded or not, labels), distinct by (op, shape, folded, target sizes, interior mask present)',
